@@ -3,6 +3,7 @@ import Driver.Adt
 import GtirbVerif.Model.IR.Modify
 import GtirbVerif.Spec.ListingCheck
 import GtirbVerif.Model.IR.Batch
+import GtirbVerif.Spec.FlatCfg
 
 /-! JSON <-> abstract IR (the canonical dump produced by harness/irdump.py). -/
 namespace Driver.IRJson
@@ -286,6 +287,20 @@ def handleListing (op : String) (j : Json) : Option (Except String Json) :=
       ("order", toJson (es.map (·.order))),
       ("seq", toJson (GtirbVerif.Batch.seqSplice 0 bytes 0 es)),
       ("spec", toJson (GtirbVerif.Listing.spliceSpec bytes 0 es))])
+  | "cfg_check" => some do
+    let ir ← irOf (← j.getObjVal? "ir")
+    let insns ← (← arr j "insns").mapM (fun p => do
+      let a ← p.getArr?
+      let b ← (a[0]!).getNat?
+      let l ← (← (a[1]!).getArr?).toList.mapM (fun q => do
+        let t ← q.getArr?
+        pure ({ off := ← (t[0]!).getNat?, size := ← (t[1]!).getNat?,
+                kind := GtirbVerif.FlatCfg.Kind.fromCode (← (t[2]!).getNat?) } : GtirbVerif.FlatCfg.Insn))
+      pure (b, l))
+    let nop ← getNatList j "nop"
+    let oldProxies ← getNatList j "old_proxies"
+    let pd ← getBool j "proxy_deletion"
+    .ok (Json.mkObj [("C03", issuesJ (GtirbVerif.FlatCfg.checkCfg ir nop (fun p => pd && !oldProxies.contains p) insns))])
   | _ => none
 
 end Driver.IRJson
